@@ -65,7 +65,7 @@ func HarnessProblem(o *world.Obs) string {
 func ReqHeader(rq *world.Req) http.Header {
 	h := http.Header{}
 	for _, kv := range rq.Header {
-		h.Add(kv[0], world.SubstBytes(kv[1])) // $X<hh> escapes stand for raw bytes
+		h.Add(strings.TrimPrefix(kv[0], "!"), world.SubstBytes(kv[1])) // $X<hh> escapes stand for raw bytes
 	}
 	return h
 }
